@@ -833,7 +833,9 @@ func resolveBlockAddress(block *hcl.Block, blockSchema *schema.BlockSchema) (lan
 				// empty attribute
 				return lang.Address{}, false
 			}
-			val, _ := attr.Expr.Value(nil)
+			// (an empty context rather than none, so that a JSON string
+			// holding an interpolation is not taken for its raw text)
+			val, _ := attr.Expr.Value(&hcl.EvalContext{})
 			if !val.IsWhollyKnown() {
 				// unknown value
 				return lang.Address{}, false
